@@ -258,7 +258,10 @@ pub fn filter_case_with(cfg: GenCfg, nctx: usize, ch: &mut Choices<'_>, st: &mut
 }
 
 fn filter_case(ch: &mut Choices<'_>, st: &mut Stats) -> CaseResult {
-    filter_case_with(GenCfg::indexing(), 6, ch, st)
+    // a fifth of the filters also index the result of a call (the root of an index path may be
+    // a call: its elements, and its absence, behave like a field's)
+    let cfg = if ch.chance(1, 5) { GenCfg { calls: true, call_depth: 1, ..GenCfg::indexing() } } else { GenCfg::indexing() };
+    filter_case_with(cfg, 6, ch, st)
 }
 
 pub fn subs() -> Vec<Sub> {
